@@ -49,6 +49,8 @@ var boundedRegistry = map[string][]boundedSpec{
 		What: "stands in for the trailing-comma / closer discipline of the container opcodes, which no contract states (Run is proved only with respect to call-site preconditions)"}},
 	"C05": {{Name: "acceptance against encoding/json", Pkg: ".", Template: "json_accept.go",
 		What: "stands in for the container grammar, the members a destination ignores and the entry points that run the stream decoder (Valid, Decoder), none of which a contract states"}},
+	"C06": {{Name: "stream decoding against one-piece and buffer decoding", Pkg: ".", Template: "json_stream_chunks.go",
+		What: "stands in for the stream-mode scanners that are not under a safety contract (string, key and skip scanners with their refill branches): the chunking corpus of C09, run here for its panic classes"}},
 	"C07": {{Name: "destination canaries", Pkg: ".", Template: "json_canary.go",
 		What: "stands in for the destinations whose decoders are not under a frame contract (struct, map, interface, embedded fields, byte slices, nested combinations) and for the traversability of the destination after failed decodes"}},
 	"C09": {{Name: "stream decoding against one-piece and buffer decoding", Pkg: ".", Template: "json_stream_chunks.go",
